@@ -14,6 +14,19 @@ HARNESS = ("harness/cmd/vharness (Go, built against /repo's working tree with -t
 NOT_APPLICABLE = {}
 
 PROPS = {
+    "C09": {
+        "design_ref": "DESIGN.md section 6 (C09)",
+        "projection": "marshalled bytes / decoded maps / Set,Get results",
+        "mismatch_is_input": True,
+        "level_text": "Canonical prefix (all lengths), decoder accepts exactly canonical untruncated blocks, totality, budget, whole-pairs/longest-fitting-prefix, round-trip with lower-cased keys, Set guards and determinism (independence from map iteration order) are Coq theorems over all byte strings / maps / budgets; the tie is a differential run incl. two exhaustive sub-sweeps (every string length 0..32768, every 2-byte prefix) plus an independent reference codec as direct oracle.",
+        "level_note": "Trusted: kernel, translator (prefix constants come from the Go compiler), extraction, harness. Go map = strictly sorted association list; strings.ToLower modelled bytewise for pure-ASCII keys only (non-ASCII keys: budget/totality checked on the implementation, not compared with the model).",
+        "assumptions": [
+            "Go map[string]string is modelled as a strictly key-sorted association list; sort.Strings order = bytewise lexicographic order",
+            "strings.ToLower = bytewise A-Z -> a-z on pure-ASCII keys (keys with bytes >= 0x80 are outside the compared domain)",
+            "Go int is unbounded Z (64-bit platform)",
+        ],
+        "modelled": "go/metadata.go unmarshalStringLength, getString closure, UnmarshalValues, marshalString, MarshalValues, Set, Get",
+    },
     "C18": {
         "design_ref": "DESIGN.md section 6 (C18)",
         "projection": "all",
